@@ -34,6 +34,7 @@ Next == /\ Len(hist) < DepthOf(sh0)
            \/ ATranslate(Vec(obj))
            \/ ASampleSize(3)
            \/ AScale(RI(-1))
+           \/ AEditCtrlpts(2, 1) \/ AEditCtrlptsW(2, 1)
            \/ \E d \in 1..3 : ASampleSizeDir(d, 3)
 Spec == Init /\ [][Next]_vars
 T_WellFormed == WellFormed(obj)
